@@ -585,10 +585,18 @@ func (p *program) compile(i int, asInit bool, rt int) []byte {
 			v := valueAlphabet[o.C%len(valueAlphabet)]
 			note("%s target=%d value=%v gas=%s require=%v", cop, j, v, callGasNames[o.D%len(callGasNames)], o.E%4 == 3)
 			a.pushU(canary)
-			a.pushU(0)
-			a.pushU(0)
-			a.pushU(0)
-			a.pushU(0)
+			if memStress && o.E%2 == 0 { // C15: argument / return windows beyond the current memory, i.e. the call itself expands memory
+				win := []uint64{1 << 12, 1 << 15, 1 << 17, 1 << 19}
+				a.pushU(32)                   // retSize
+				a.pushU(win[(o.A+o.C)%4])     // retOffset
+				a.pushU(uint64(o.B%2) * 64)   // argsSize
+				a.pushU(win[(o.B+o.D)%4] / 2) // argsOffset
+			} else {
+				a.pushU(0)
+				a.pushU(0)
+				a.pushU(0)
+				a.pushU(0)
+			}
 			if cop == vm.CALL || cop == vm.CALLCODE {
 				a.push(v)
 			}
